@@ -393,6 +393,8 @@ ApplyConfChange(n, st, c, tr, ch) ==
 (* Raft::restore = <<restored?, n'>> *)
 RestoreSnapshot(n, st, c, snap, rt) ==
     IF snap.i < n.log.committed /\ ~Ab("RestoreRejectsStale") THEN <<FALSE, n>>
+    \* repair F5: a snapshot below the pending request index is not the reply to the request
+    ELSE IF n.prs # 0 /\ snap.i < n.prs /\ ~Ab("RestoreRejectsOlderThanRequest") THEN <<FALSE, n>>
     ELSE IF n.role # "F" THEN <<FALSE, BecomeFollower(n, st, n.term + 1, 0, rt)>>
     ELSE IF n.id \notin MembersOf(snap.conf) THEN <<FALSE, n>>
     ELSE IF n.prs = 0 /\ LMatchTerm(n.log, st, snap.i, snap.t)
